@@ -557,7 +557,8 @@ int lh_table_resize(struct lh_table *t, int new_size)
 	}
 	free(t->table);
 	t->table = new_t->table;
-	t->size = new_size;
+	/* new_t may have grown while it was being filled */
+	t->size = new_t->size;
 	t->head = new_t->head;
 	t->tail = new_t->tail;
 	free(new_t);
